@@ -205,6 +205,18 @@ pub async fn client_rpc_loop<
     while let Some(message_result) = rx.next().await {
         match message_result {
             Ok(message) => {
+                // This has to precede everything that iterates the ids of a selector
+                if let Err(e) = message.validate() {
+                    log::error!("Invalid client request: {e}");
+                    if let Err(error) = tx
+                        .send(ToClientMessage::Error(format!("Invalid request: {e}")))
+                        .await
+                    {
+                        log::error!("Cannot reply to client: {error:?}");
+                        break;
+                    }
+                    continue;
+                }
                 let response = match message {
                     FromClientMessage::Submit(msg, stream_opts) => {
                         let response = submit::handle_submit(&state_ref, senders, msg);
